@@ -763,7 +763,7 @@ impl LongTermCredentialClient {
     }
 //@end
 //@item stun_agent :: mod lt_cred_mech > impl LongTermCredentialClient > fn retry_from_unauthenticated_error_response
-//@tags C08 C13
+//@tags C08
 //@subopt "remove_auth_and_integrity_attrs(" => "lt_remove_auth_and_integrity_attrs("
 //@tail
     proof {
@@ -780,7 +780,7 @@ impl LongTermCredentialClient {
         old(self).params is Some ==> lt_integrity_ok(*old(self), *final(attributes)),
 //@end
 //@item stun_agent :: mod lt_cred_mech > impl LongTermCredentialClient > fn retry_from_stale_nonce_error_response
-//@tags C08 C13
+//@tags C08
 //@subopt "remove_auth_and_integrity_attrs(" => "lt_remove_auth_and_integrity_attrs("
 //@tail
     proof {
